@@ -205,6 +205,15 @@ def run_series(s, wd):
         grow = m[(SCALE, n_big)][k] - m[(SCALE, n_mid)][k]
         if control:
             grow -= max(0, control[n_big][k] - control[n_mid][k])
+        if grow > BUDGET and not control:
+            # a codec constant that the scaling does not shrink (a window, an output granule) can fill up between 1 and 4 MiB:
+            # growth with member size goes on beyond 4 MiB, a plateau does not (Brotli's limited output settles near 490 KiB)
+            big = 4 * n_big
+            r16 = measure(s["chain"], big, s["texture"], s["write_api"], s["extract_api"], s["position"], wd, scale=SCALE, link=s.get("link", False))
+            points.append((SCALE, big, r16.get("write_peak"), r16.get("extract_peak")))
+            if "error" not in r16 and r16[k] - m[(SCALE, n_big)][k] <= BUDGET:
+                notes[direction] = "plateau-below-4MiB-not-growth"
+                continue
         if grow > BUDGET:
             out.append((direction, "memory-grows-with-member-size",
                         f"scale 1/{SCALE}: peak {m[(SCALE, n_big)][k] // 1024} KiB at n={n_big >> 10} KiB vs {m[(SCALE, n_mid)][k] // 1024} KiB at n={n_mid >> 10} KiB "
@@ -292,7 +301,7 @@ def main(tier="quick", seed=0, only=None):
             f"1 MiB and 4 MiB (2048x / 8192x the block) x write API (writef from a lazy source / write from a file) x "
             f"extraction API (path / null-writer factory / testzip) x position of the big member (first / last / between small ones; for {len(many)} chains also behind 8192 sixteen-byte members with incompressible contents; and the big member flagged as a symbolic link, extracted to a path); archive in a real "
             f"file. Meter: tracemalloc peak of the write session and of the read session. Oracle: peak(n) - peak(smallest n) <= {BUDGET // 1024} KiB "
-            "(700 MiB scaled), i.e. no growth with member size or compression ratio. evaluations = measured (configuration, size) points; "
+            "(700 MiB scaled), i.e. no growth with member size or compression ratio; a growth is confirmed at 16 MiB before it is reported (a plateau reached between 1 and 4 MiB is a codec constant the scaling does not shrink). evaluations = measured (configuration, size) points; "
             "distinct_nontrivial = growth series."
         ),
         assumptions=["scaling argument: block and chunk are the only size constants between source and sink, both scaled by the same factor (DESIGN.md C20)",
